@@ -7,8 +7,6 @@ INVARIANT TypeOK
 INVARIANT ResultIsRequested
 INVARIANT RejectIffNotCovered
 INVARIANT BoundedKdf
-INVARIANT CoverIsDerivable
 INVARIANT CountersInLattice
-INVARIANT MinimalWork
 PROPERTY StepsAreEdges
 CHECK_DEADLOCK FALSE
